@@ -40,7 +40,10 @@ pub fn install_quiet_panic_hook() {
 impl Interp {
     pub fn exec(&mut self, op: &str) -> String {
         let toks: Vec<&str> = op.split(' ').filter(|t| !t.is_empty()).collect();
-        match catch_unwind(AssertUnwindSafe(|| self.exec_inner(&toks))) {
+        crate::watch::op_started(op);
+        let r = catch_unwind(AssertUnwindSafe(|| self.exec_inner(&toks)));
+        crate::watch::op_finished();
+        match r {
             Ok(r) => r,
             Err(_) => {
                 // a stateful object touched by a panicking op is no longer trustworthy
